@@ -66,6 +66,41 @@ example (r : Ctl ℕ)
     r.nIter ≤ 5 :=
   iterations_bound_no_adapt _ _ 4 (by intro v tol _; simp) 1 (by norm_num) 0 1 50 r h
 
+/-- **Sharp bound over all histories**: whatever the update and the (reflexively false) test do,
+one component makes at most `max(2·max, max+1)` updates — `2·max` as soon as `max ≥ 1` — and at
+most `max+1` without adaptation (`iterations_bound_no_adapt`); `bound_attained` shows both are
+reached. -/
+theorem iterations_bound_sharp (notConv : V → V → ℚ → Bool) (update : V → V) (max : ℕ) (adapt : Bool)
+    (hrefl : ∀ v tol, 0 ≤ tol → notConv v v tol = false) (tol : ℚ) (htol : 0 ≤ tol) (old cur : V)
+    (fuel : ℕ) (r : Ctl V)
+    (h : run notConv update max adapt fuel ⟨0, tol, old, cur⟩ = some r) :
+    r.nIter ≤ Nat.max (2 * max) (max + 1) := by
+  have h1 : 2 * max ≤ Nat.max (2 * max) (max + 1) := Nat.le_max_left _ _
+  have h2 : max + 1 ≤ Nat.max (2 * max) (max + 1) := Nat.le_max_right _ _
+  have key := run_invariant notConv update max adapt
+    (fun s => 0 ≤ s.tol ∧ ((s.old = s.cur ∧ s.nIter ≤ Nat.max (2 * max) (max + 1)) ∨ s.nIter ≤ max ∨
+      (adapt = true ∧ s.nIter < 2 * max)))
+    (by
+      intro s ⟨ht, hs⟩ hc
+      refine ⟨body_tol_nonneg update max adapt s ht, ?_⟩
+      rcases hs with ⟨he, _⟩ | hs
+      · rw [he, hrefl _ _ ht] at hc; cases hc
+      · simp only [body]
+        split_ifs with g1 g2
+        · simp only [Bool.and_eq_true, decide_eq_true_eq] at g2
+          right; right; exact ⟨g2.1, by simp only; exact g2.2⟩
+        · left
+          refine ⟨rfl, ?_⟩
+          simp only
+          rcases hs with hs | ⟨_, hs⟩ <;> omega
+        · right; left; simp only; omega)
+    fuel _ r ⟨htol, Or.inr (Or.inl (Nat.zero_le _))⟩ h
+  rcases key.2 with ⟨_, k⟩ | k | ⟨_, k⟩ <;> omega
+example (r : Ctl ℕ)
+    (h : run (fun (o c : ℕ) (_ : ℚ) => decide (o ≠ c)) (· + 1) 3 true 50 ⟨0, 1, 0, 1⟩ = some r) :
+    r.nIter ≤ 6 := by
+  simpa using iterations_bound_sharp _ _ 3 true (by intro v tol _; simp) 1 (by norm_num) 0 1 50 r h
+
 /-- On exit the loop condition is false: the vectors converged at the final tolerance or
 the exit was forced. -/
 theorem exit_condition (notConv : V → V → ℚ → Bool) (update : V → V) (max : ℕ) (adapt : Bool)
@@ -162,6 +197,27 @@ translator read from `FCPTPA.fit` today (`Generated/FcpLoop.lean`) are those of 
 `>=` for `>`, `<=` for `<`, another factor than `2` or `10` breaks this proof. -/
 theorem source_controller : FDA.Generated.fcpLoop = codedConsts := by
   unfold FDA.Generated.fcpLoop codedConsts
+  norm_num
+
+/-- With the constants of the hand-written model the parametrised normalisation block is
+`normImage` / `normScores` / `normEigenvalue` (about which `normalize_invariant`,
+`normalize_unit_norm`, `normalize_eigenvalues` are proved). -/
+theorem coded_normalisation (r : ℕ → ℚ) (E : ℕ → ℕ → ℕ → ℚ) (S lamS : ℕ → ℕ → ℚ) (lam : ℕ → ℚ) (i j k l : ℕ) :
+    normImageP codedNormConsts r E k j l = normImage r E k j l ∧
+      normScoresP codedNormConsts r S i k = normScores r S i k ∧
+      normEigenvalueP codedNormConsts r lam k = normEigenvalue r lam k := by
+  refine ⟨?_, ?_, ?_⟩
+  · simp [normImageP, normImage, normDatumP, codedNormConsts, div_eq_mul_inv, zpow_neg_one]
+  · simp [normScoresP, normScores, normDatumP, codedNormConsts]
+  · simp only [normEigenvalueP, normEigenvalue, normDatumP, codedNormConsts]
+    norm_num [zpow_ofNat]
+
+/-- **The source's normalisation block is the model's**: test by truthiness, the norm (not its
+square) on the actual grid, eigenimages `/ norm`, scores `* norm`, eigenvalues `* norm²` — as
+re-parsed from `FCPTPA.fit` on this run.  `is True`, `squared=True`, `use_argvals_stand=True`,
+another power or a swapped `*`/`/` break this proof. -/
+theorem source_normalisation : FDA.Generated.fcpNorm = codedNormConsts := by
+  unfold FDA.Generated.fcpNorm codedNormConsts
   norm_num
 
 /-! ## Tolerance -/
